@@ -272,17 +272,6 @@ theorem replayAux_cut (cfg : Cfg) (fuel : Nat) : ∀ (rest : Bytes) (k pos : Nat
                 rw [← hf]; exact ih _ _ _ _ _ _ _ (by rw [hf]; exact h)
               · simp only [hrc, if_false]
 
-/-- the records both loops step through in a log, with their positions -/
-def walkAux : Nat → Bytes → Nat → List (Nat × Rec)
-  | 0, _, _ => []
-  | fuel + 1, rest, pos =>
-    if rest.isEmpty then []
-    else match parse rest with
-      | none => []
-      | some (r, adv) => (pos, r) :: walkAux fuel (rest.drop adv) (pos + adv)
-
-def walk (w : Bytes) : List (Nat × Rec) := walkAux w.length w 0
-
 theorem walkAux_pos_ge (fuel : Nat) : ∀ (rest : Bytes) (pos p : Nat) (r : Rec), (p, r) ∈ walkAux fuel rest pos → pos ≤ p := by
   induction fuel with
   | zero => intro rest pos p r h; simp [walkAux] at h
